@@ -19,6 +19,8 @@ var cmds = map[string]func([]string) error{
 	"c16":       props.C16,
 	"c19":       props.C19,
 	"c20":       props.C20,
+	"scen":      props.Scen,
+	"scenrun":   props.ScenRun,
 }
 
 func main() {
